@@ -1297,12 +1297,31 @@ func (c *Ctx) c18Batch() {
 					if len(x.Lhs) != 1 || len(x.Rhs) != 1 {
 						continue
 					}
+					if _, isLit := ast.Unparen(x.Rhs[0]).(*ast.FuncLit); isLit {
+						continue // the definition of a reading closure is not an item; its calls are
+					}
 					var u64 *ast.CallExpr
 					en := ""
 					ast.Inspect(x, func(m ast.Node) bool {
 						if call, ok := m.(*ast.CallExpr); ok {
 							if e2, mname := endianOf(info, call); mname == "Uint64" {
 								u64, en = call, e2
+							}
+							// a local closure `read := func() uint64 { v := binary.X.Uint64(buffer[n:]); n += 8; return v }` used as one item
+							if fid, isID := ast.Unparen(call.Fun).(*ast.Ident); isID && len(call.Args) == 0 && u64 == nil {
+								if d := uniqueDef(info, dec.Node(), fid); d != nil {
+									if fl, ok := ast.Unparen(d).(*ast.FuncLit); ok && len(fl.Body.List) == 3 {
+										if rs, isRet := fl.Body.List[2].(*ast.ReturnStmt); isRet && len(rs.Results) == 1 {
+											if c2 := firstCall(fl.Body.List[0]); c2 != nil {
+												if e2, mname := endianOf(info, c2); mname == "Uint64" {
+													if a := cursorAdv(info, fl.Body.List[1], locals); a != "" {
+														u64, en, adv = call, e2, a
+													}
+												}
+											}
+										}
+									}
+								}
 							}
 						}
 						return true
@@ -1484,12 +1503,17 @@ func (c *Ctx) c18Batch() {
 			if !ok || len(fl.Body.List) < 2 {
 				return true
 			}
-			last, ok := fl.Body.List[len(fl.Body.List)-1].(*ast.AssignStmt)
+			body := fl.Body.List
+			// a reading closure ends in `return v` after the advance (v := …(buffer[cursor:]); cursor += 8; return v)
+			if rs, isRet := body[len(body)-1].(*ast.ReturnStmt); isRet && len(body) >= 3 && !usesCursor(rs) {
+				body = body[:len(body)-1]
+			}
+			last, ok := body[len(body)-1].(*ast.AssignStmt)
 			if !ok || last.Tok != token.ADD_ASSIGN {
 				return true
 			}
 			acc := false
-			for _, st := range fl.Body.List[:len(fl.Body.List)-1] {
+			for _, st := range body[:len(body)-1] {
 				if usesCursor(st) {
 					acc = true
 				}
